@@ -3,6 +3,7 @@ package partsim
 import (
 	"bytes"
 	"fmt"
+	"sort"
 
 	"github.com/cilium/statedb/part"
 
@@ -320,6 +321,46 @@ func (s *sim) runOps(what string, txn *part.Txn[uint64], tm map[string]uint64, t
 			d := 1 + s.rng.IntN(depth)
 			s.applyWrite(what, txn, tm, ts, 4, bytes.Repeat(unit, d))
 		}
+	case mode == 9 && s.rng.IntN(3) == 0 && len(s.alph) >= 3:
+		// comb: a chain u, uu, uuu, ... with one or two larger siblings at every level, so that a LowerBound iterator positioned at
+		// the end of the chain carries one pending edge set per level (more than the 32 an iterator keeps on its stack)
+		alph := append([]byte(nil), s.alph...)
+		sort.Slice(alph, func(i, j int) bool { return alph[i] < alph[j] })
+		u, b1, b2 := alph[0], alph[1], alph[len(alph)-1]
+		depth := 25 + s.rng.IntN(50)
+		s.logf("%s comb unit=%x depth=%d", what, u, depth)
+		var k []byte
+		for i := 0; i < depth && !s.failed; i++ {
+			s.applyWrite(what, txn, tm, ts, 0, append(bytes.Clone(k), b1))
+			if i%3 == 0 {
+				s.applyWrite(what, txn, tm, ts, 0, append(bytes.Clone(k), b2))
+			}
+			k = append(k, u)
+			if s.rng.IntN(3) > 0 {
+				s.applyWrite(what, txn, tm, ts, 0, bytes.Clone(k))
+			}
+		}
+		s.applyWrite(what, txn, tm, ts, 0, bytes.Clone(k))
+		// an iterator positioned deep in the comb, iterated twice, then advanced and iterated again, and kept
+		from := k[:len(k)-s.rng.IntN(5)]
+		it := txn.LowerBound(from)
+		want := expectLower(sortedEntries(tm), string(from))
+		for pass := 0; pass < 2; pass++ {
+			if got := collect(it); !eqEntries(got, want) {
+				s.violate(true, "contents/txn-lowerbound", "%s LowerBound(%x) on the comb, pass %d: got [%s] want [%s]", what, from, pass, fmtEntries(got), fmtEntries(want))
+			}
+		}
+		for n := s.rng.IntN(4); n > 0 && len(want) > 0; n-- {
+			kk, v, ok := it.Next()
+			if !ok || string(kk) != want[0].K || v != want[0].V {
+				s.violate(true, "persistence/iterator-next", "%s LowerBound(%x) on the comb: Next()=(%x,%d,%v) want %x=%d", what, from, kk, v, ok, want[0].K, want[0].V)
+			}
+			want = want[1:]
+		}
+		if got := collect(it); !eqEntries(got, want) {
+			s.violate(true, "contents/txn-lowerbound", "%s LowerBound(%x) on the comb after Next: got [%s] want [%s]", what, from, fmtEntries(got), fmtEntries(want))
+		}
+		s.retainIter(what+fmt.Sprintf(" comb lowerbound %x", from), it, want)
 	default: // shrink fan-out under a prefix
 		p := s.genKey()
 		if len(p) > 0 {
